@@ -64,6 +64,12 @@ class Ctx:
             self.coverage["discharged"] += len(thms) + extra_obligations
         else:
             self.broke("proof obligation failed: %s" % r["failed"], r["log"])
+        if r["ok"] and not self.quick:
+            ok2, axioms, summary = coqrun.coqchk(self.pid)
+            self.extra["coqchk"] = {"ok": ok2, "axioms": axioms, "summary": summary}
+            self.coverage["checker_cmd"] += " && coqchk -o -Q . IPV8V IPV8V.props.%s" % self.pid
+            if not ok2 or [a for a in axioms if a not in coqrun.ALLOWED_AXIOMS]:
+                self.broke("coqchk does not accept the development or reports axioms", summary)
         hits = coqrun.grep_forbidden(self.pid)
         if hits:
             self.broke("forbidden declaration in development", "\n".join(hits))
